@@ -50,6 +50,21 @@
 (*             the section polygon is pinched; every NON-EMPTY half of a   *)
 (*             convex solid is watertight (every undirected edge of the    *)
 (*             recorded face array occurs exactly twice).                  *)
+(*  capped by two planes - the result of slicing by <<p1, p2>> with caps  *)
+(*             is a half of the capped half of p1: every triangle is a     *)
+(*             piece of the part of the surface on the non-negative side   *)
+(*             of both planes or lies in one plane on the non-negative     *)
+(*             side of the other; the volumes of the two halves (p2 and    *)
+(*             its opposite) add up to the exact volume of the half of p1  *)
+(*             for convex solids and when no vertex of the solid lies on   *)
+(*             p1 and no vertex of its half (vertices kept and crossing    *)
+(*             points) lies on p2 (otherwise the clause name ends in       *)
+(*             _pinched and the harness attributes it to the known         *)
+(*             finding about pinched section polygons); every non-empty    *)
+(*             piece of a convex solid is watertight (_slit: three         *)
+(*             vertices of the half of p1 lie on the line p1 /\ p2).       *)
+(*  path     - for a watertight mesh and a plane through no vertex every   *)
+(*             entity of the returned path is closed (c.popen = 0).        *)
 (* Left unconstrained: isolated touching points of a section; sections     *)
 (* when an edge lies in the plane (beyond soundness); which of the two     *)
 (* opposite slices owns an in-plane triangle; what happens to unselected   *)
@@ -216,8 +231,14 @@ SegsClause(c, pl, segs, hint, what) ==
 SectionClause(c) ==
     LET pl == c.planes[1]
         a == SegsClause(c, pl, c.segs, c.fidx, "section")
+        general == \A v \in 1..Len(c.V) : Side(pl, 1, c.V[v]) # 0
     IN IF a # "ok" THEN a
-       ELSE IF c.haspath THEN SegsClause(c, pl, c.psegs, [k \in 1..Len(c.psegs) |-> -1], "path")
+       ELSE IF c.haspath THEN
+            LET b == SegsClause(c, pl, c.psegs, [k \in 1..Len(c.psegs) |-> -1], "path") IN
+            IF b # "ok" THEN b
+            \* c.popen: entities of the returned path that are not closed curves (plus one if the path says it is not closed)
+            ELSE IF general /\ Sel(c) = FaceIds(c) /\ Info(c).solid /\ c.popen > 0 THEN "path_entities_not_closed"
+            ELSE "ok"
        ELSE "ok"
 
 \* ------------------------------------------------------------------ slices
@@ -316,12 +337,49 @@ CapClause(c) ==
     ELSE IF Info(c).convex /\ Len(c.neg.f) > 0 /\ ~Watertight(c.neg.f) THEN "half_of_convex_solid_not_watertight"
     ELSE "ok"
 
+\* ------------------------------------------------ capped slices by two planes
+\* c.planes = <<p1, p2>>; c.pos: capped slice by <<p1, p2>>; c.neg: capped slice by <<p1, Opp(p2)>>
+\* a triangle of the result is a piece of the surface on the non-negative side of every plane, or lies in one
+\* of the planes on the non-negative side of the others
+CapTriOkM(c, planes, o, t) ==
+    LET T == TriPts(o, t)  h == o.src[t]
+        Good(f) == InPart(c, planes, f, T) /\ Dot(FaceN(c, f), TriA2(T)) >= 0
+    IN \/ /\ \E q \in 1..Len(planes) : \A j \in 1..3 : Side(planes[q], c.K, T[j]) = 0
+          /\ \A r \in 1..Len(planes) : \A j \in 1..3 : Side(planes[r], c.K, T[j]) >= 0
+       \/ (h \in FaceIds(c) /\ Good(h))
+       \/ \E f \in FaceIds(c) : Good(f)
+\* the vertices of the capped half of p1 (exact rational points): vertices kept and crossing points
+HalfPts(c, p1) == UNION {Range(ClipAllH(FaceH(c, f), <<p1>>, 1)) : f \in FaceIds(c)}
+CapMultiClause(c) ==
+    LET p1 == c.planes[1]  p2 == c.planes[2]
+        P == <<p1, p2>>  N == <<p1, Opp(p2)>>
+        Hp == HalfPolys(c, p1)
+        exactOk == UnitAxis(p1.n) # {} /\ HalfOk(Hp)
+        pts == HalfPts(c, p1)
+        general == (\A v \in 1..Len(c.V) : Side(p1, 1, c.V[v]) # 0) /\ \A h \in pts : SideH(p2, h) # 0
+        slit == Cardinality({h \in pts : SideH(p1, h) = 0 /\ SideH(p2, h) = 0}) >= 3
+        sumBad == 2 * (Vol6(c.pos) + Vol6(c.neg)) # HalfVol12(c, p1, Hp)
+        leaky == \/ Len(c.pos.f) > 0 /\ ~Watertight(c.pos.f)
+                 \/ Len(c.neg.f) > 0 /\ ~Watertight(c.neg.f)
+    IN
+    IF ~WellFormed(c.pos) \/ ~WellFormed(c.neg) THEN "capped_face_index_out_of_range"
+    ELSE IF \E t \in 1..Len(c.pos.f) : ~CapTriOkM(c, P, c.pos, t) THEN "capped_pair_triangle_off_surface_and_planes"
+    ELSE IF \E t \in 1..Len(c.neg.f) : ~CapTriOkM(c, N, c.neg, t) THEN "capped_pair_triangle_off_surface_and_planes"
+    ELSE IF c.K > 128 THEN "MODEL_LIMIT_grid_too_fine_for_volumes"
+    ELSE IF ~Info(c).solid THEN "ok"
+    ELSE IF exactOk /\ sumBad THEN
+         IF Info(c).convex \/ general THEN "capped_pair_volumes_do_not_add_up" ELSE "capped_pair_volumes_do_not_add_up_pinched"
+    ELSE IF Info(c).convex /\ leaky THEN
+         IF slit THEN "quarter_of_convex_solid_not_watertight_slit" ELSE "quarter_of_convex_solid_not_watertight"
+    ELSE "ok"
+
 \* ---------------------------------------------------------------- validator
 Clause(c) ==
     IF c.off # "" THEN "offlattice_" \o c.off
     ELSE CASE c.kind = "section" -> SectionClause(c)
            [] c.kind = "slice" -> SliceClause(c)
            [] c.kind = "cap" -> CapClause(c)
+           [] c.kind = "capm" -> CapMultiClause(c)
            [] OTHER -> "unknown_kind"
 
 Init == i = 1
